@@ -33,6 +33,21 @@ def put(d, name, body):
     if b not in d:
         return d
     return d[:d.index(b) + len(b)] + '\n' + body + '\n' + d[d.index(e):]
+# per-property status from the check configs
+import importlib.util, sys
+sys.path.insert(0, os.path.join(ROOT, 'checks'))
+rows = ['| property | harness | Lean modules | theorems audited | master theorem(s) | modelled, not verified |\n|---|---|---|---|---|---|']
+for i in range(1, 21):
+    pid = 'C%02d' % i
+    fp = os.path.join(ROOT, 'checks', pid.lower() + '.py')
+    if not os.path.exists(fp):
+        continue
+    spec = importlib.util.spec_from_file_location(pid.lower(), fp); mod = importlib.util.module_from_spec(spec); spec.loader.exec_module(mod)
+    c = mod.CONFIG
+    masters = [t.split('.')[-1] for t in c['theorems'] if 'check_run_ok' in t or 'eval_eq_reference' in t or 'update_validated_ok' in t]
+    h = c['harness']
+    rows.append(f"| {pid} | {h['kind']} ({h.get('bin') or h.get('test')}) | {', '.join(c['lean_modules'])} | {len(c['theorems'])} | {', '.join(masters) or '—'} | {esc('; '.join(c.get('modelled_not_verified', [])))[:500]} |")
+d = put(d, 'STATUS', '\n'.join(rows))
 d = put(d, 'FINDINGS', tbl)
 d = put(d, 'SEEDED', '\n'.join(sd))
 open(os.path.join(ROOT, 'DESIGN.md'), 'w').write(d)
